@@ -23,6 +23,7 @@ class Trace:
         self.begin_seq = None
         open_s = None
         open_b = None
+        last_fetch_call = None
         for e in self.events:
             k = e["k"]
             if k == "s.call":
@@ -41,6 +42,8 @@ class Trace:
                     open_s["s1"] = e["s"]
                     open_s = None
             elif k == "b.call":
+                if e.get("m") == "fetch_status_results":
+                    last_fetch_call = e["s"]
                 open_b = Call(e)
                 open_b["s0"] = e["s"]
                 open_b["t0"] = e["t"]
@@ -80,6 +83,9 @@ class Trace:
                     r["s1"] = e["s"]
                     r["t1"] = e["t"]
             elif k == "cb.fetch":
+                # "s": the poll has returned; "sc": the poll began (a poll takes time when reads are slow, F12)
+                e["sc"] = last_fetch_call if last_fetch_call is not None else e["s"]
+                last_fetch_call = None
                 self.fetches.append(e)
             elif k == "cb.loop_end":
                 self.loop_ends.append(e)
@@ -90,12 +96,12 @@ class Trace:
             if k.startswith("cb."):
                 self.cb.append(e)
         self.exception = self.end.get("exc") if self.end else None
-        self.last_fetch_seq = self.fetches[-1]["s"] if self.fetches else -1
+        self.last_fetch_seq = self.fetches[-1]["sc"] if self.fetches else -1
 
     def observed_by(self, seq):
         """Seq of the end of the first loop iteration whose poll came after `seq`
         (the point by which the loop must have acted on whatever happened at `seq`)."""
-        f = next((x["s"] for x in self.fetches if x["s"] > seq), None)
+        f = next((x["s"] for x in self.fetches if x["sc"] > seq), None)
         if f is None:
             return self.events[-1]["s"] if self.events else seq
         le = next((x["s"] for x in self.loop_ends if x["s"] > f), None)
